@@ -415,6 +415,8 @@ pub fn spec(id: &str, variant: &str, cancelable: bool, thorough: bool) -> Option
                 threads: (2, 4),
                 ops: (0, 14),
                 cycles: (1, 6),
+                templates: vec![(1, Template::PoolHandoff)],
+                pool_pct: 3,
                 ..base.clone().set(&[
                     (K::Bulk, 1),
                     (K::CollectorStart, 3),
@@ -517,7 +519,8 @@ pub fn spec(id: &str, variant: &str, cancelable: bool, thorough: bool) -> Option
                 ops: (0, 20),
                 cycles: (0, 6),
                 cancelable: Some(true),
-                templates: vec![(4, Template::FanIn)],
+                templates: vec![(4, Template::FanIn), (1, Template::PoolHandoff)],
+                pool_pct: 2,
                 ..base.clone().set(&[
                     (K::Bulk, 1), (K::Volley, 2), (K::Burst, 1), (K::Many, 1), (K::CollectorStart, 2), (K::PushChildSpans, 3), (K::Flush, 5), (K::Exit, 2), (K::Finish, 16)])
             }),
